@@ -308,6 +308,10 @@ fn emit_expression_ctx(
                 out.push(json!({"CNT?": s.resolve_divert_target(name, ctx)}))
             } else if context.is_some_and(|ctx| ctx.top_flow_names.contains(name)) {
                 out.push(json!({"CNT?": name}))
+            } else if let (Some(s), Some(ctx)) = (scope, context)
+                && let Some(path) = s.resolve_label_in_enclosing_flow(name, ctx)
+            {
+                out.push(json!({"CNT?": path}))
             } else {
                 out.push(json!({"VAR?": name}))
             }
